@@ -93,16 +93,19 @@ func (x *c19) name(fn *ssa.Function) string { return FuncName(x.p, fn) }
 
 func checkC19(c *Ctx) {
 	r, p := c.R, c.P
-	r.Explanation = "Decides structural necessary conditions of C19 on crypto/spiffe. Constructs are resolved by role (types + dataflow), not by unexported names: the SVID field is the struct field of type *x509svid.SVID, its lock the mutex held where it is stored, the readiness channel the channel field Ready waits on, a fetcher any function returning (*x509svid.SVID, error), the rotation code everything reachable from Run; same-package callees (static calls, closures, deferred calls) are followed by summaries, helpers' contexts by their call sites; calls of function VALUES are followed when every possible target is a known package function (function literals and bound method values in temporaries, captured variables, parameters, named func adapter types, unexported func-typed fields, local literal tables); a literal handed to a helper that calls it (withLock(func(){...})) runs with the helper's locks (second lockset pass with entry locksets handed over) and its closes/fetches are counted at the helper's call of the parameter; GetX509SVID must load the served field during the call (a value captured earlier is a stale source); a channel field that only ever receives the value of one other channel field (a copy kept by the source) denotes that channel; invoke calls on an unexported interface with a single implementing type of the package are followed; closes inside sync.Once.Do take effect once per Once; the search for the first wait after a failed fetch leaves phase helpers through their returns into every call site, carrying the constants / flags / enums returned on that path and pruning the caller's branches with them; the file map of dir.Write is analysed as a whole (literals, loops, maps.Copy/Clone); a mutex used as a VALUE is resolved: Lock/Unlock invoked on a sync.Locker (local, unexported field) denoting &mu (write side) or mu.RLocker() (read side), and locks handed to a helper as a parameter (sync.Locker or *sync.(RW)Mutex) held around the helper's call of its callback, resolved per call site. " +
-		"(X1) no wait for readiness (receive or select on the readiness channel, directly or through a callee) happens while holding the SVID lock in a mode that conflicts with what every close of the channel needs (held at the close, or acquired on every path to it) — the GetX509SVID/Run deadlock; a select whose other cases are only context cancellation counts as a wait. " +
-		"(X2) on every path through Run on which the initial fetch was started the channel is closed exactly once (closes counted through callees and deferred calls); a return without close is only accepted before the fetch, behind the atomic compare-and-swap 'already running' guard; Ready selects on the channel and its context only. " +
-		"(X3) the SVID field is written only under the write lock and read under the lock; every value stored is result 0 of a fetcher call whose error is known nil (or the value known non-nil) at the store, followed through parameters of helpers to all their call sites; GetX509SVID returns a value loaded from the field. " +
-		"(X4) inside each top-level fetcher, by backward value provenance through helpers (context-sensitive): the CSR handed to the request call, the PrivateKey of the SVID built, and the key entry of the map given to the single dir.Write all derive from ONE key-generation call (crypto */GenerateKey) executed in this fetch, no key comes from a field/global; the SVID's Certificates and the chain entry derive from this request's result, and a third entry from CurrentTrustAnchors. " +
-		"(X5/X6) time values are evaluated to linear forms over {cert.NotBefore, cert.NotAfter, now} through helpers and loop phis: every renewal point the rotation code compares the clock with or sleeps towards is (1-a)*NotBefore + a*NotAfter of ONE certificate with a <= 1/2; every clock wait not on the error path is provably <= 1 minute (constant, min(), or a guarded clamp), every wait on the error path of a renewal is exactly 10 s; no time.Now/After/Sleep/NewTimer in the rotation code (injected clock). " +
-		"(X7) every return of GetX509SVID (followed through wrappers, func adapters and helpers returning the pair) that carries a nil error carries an SVID known non-nil there: the returned value (or another load of the same field / variable) was tested against nil on every path to the return, or a flag returned by the helper that produced it implies it, or it is the address of a copy guarded by a flag field; returning the served field untested (it is nil until the first successful fetch, and Run signals readiness after a FAILED initial fetch too) or a nil constant with a nil error is a VIOLATION, other shapes are UNDECIDED. " +
-		"NOT decided: the renewal law over all validity windows and failure sequences (only its constants and wiring), that the certificate used for the renewal point is the leaf of the served SVID, the order of store and close inside the critical section."
-	r.Assumptions = append(r.Assumptions, "type-based lock/channel identity", "crypto GenerateKey functions return a fresh key on every call (crypto/rand)",
-		"unexported functions of crypto/spiffe are only called from the call sites visible in the package")
+	r.Explanation = "Decides structural necessary conditions of C19 on crypto/spiffe (and, through the C18 writer rules run as C19.DIR-*, on concurrency/dir.Dir.Write). " +
+		"ROLES, resolved through types and dataflow from exported anchors only (SPIFFE.Run, SPIFFE.Ready, the GetX509SVID method, x509svid.SVID, dir.Dir.Write, crypto */GenerateKey, CurrentTrustAnchors, k8s.io/utils/clock, time, sync, sync/atomic): the served-SVID field is the package's struct field of type *x509svid.SVID (or x509svid.SVID by value next to a flag), its lock the mutex held for writing where it is stored, the readiness channel the channel field Ready waits on (a channel field that only ever receives that field's value is the same channel), a fetcher a function returning (*x509svid.SVID, error) that performs the issuer call or a key generation, the issuer call the dynamic call (ctx, []byte) ([]*x509.Certificate, error), the rotation code everything statically reachable from Run inside the package. " +
+		"FOLLOWING: same-package static calls, closures and deferred calls by per-function summaries or call-string frames (depth <= 8), helpers' contexts by all their visible call sites; calls of function values when every possible target is a known package function (literals and bound method values in temporaries, captured variables, parameters, named func adapter types, unexported func-typed fields assigned in the package, local literal tables); invoke calls on an unexported interface with exactly one implementing type in the package; a literal handed to a helper that calls it runs with the locks the helper holds at that call (second lockset pass with handed-over entry locksets, including locks the helper takes on a sync.Locker / *sync.(RW)Mutex parameter, resolved per call site: &mu = write side, mu.RLocker() = read side) and its closes/fetches are counted at the helper's call of the parameter; Lock/Unlock invoked on a sync.Locker local or unexported field denoting one mutex in one mode are lock operations; closes inside sync.Once.Do take effect once per Once. " +
+		"(X1) no wait for readiness (receive, or select whose other cases are only context cancellation, on the readiness channel; directly, through a callee, or through a helper given the channel as a parameter) happens while holding a lock in a mode conflicting with what every close of the channel needs (held at the close, or acquired on every path to it) — the GetX509SVID/Run deadlock. " +
+		"(X2) on every path through Run on which the initial fetch was started the channel is closed exactly once (closes counted through callees, callbacks, deferred calls and sync.Once); a return without close is accepted only before the fetch, on the losing side of an atomic CompareAndSwap/Swap 'already running' guard; Ready waits in one select on exactly the readiness channel and its context. " +
+		"(X3) the served-SVID field is written only under the write lock and read under the lock; every value stored is result 0 of a fetcher call whose error is known nil (or the value known non-nil) at the store, followed through helper parameters to all call sites, captured variables and variable cells; GetX509SVID returns a value loaded from the field during the call (a value captured earlier is a stale source). " +
+		"(X4) inside each top-level fetcher, by backward value provenance: the CSR handed to the issuer call, the PrivateKey of the SVID built and the key material in the file map of the single dir.Write (map literal, loop over a table, maps.Copy/Clone, also reached through a function value) derive from ONE key-generation call site executed in this fetch, no key material comes from a field or global; the SVID's Certificates and the file map derive from this request's result, and the file map from CurrentTrustAnchors. " +
+		"(X5/X6) time values are evaluated to linear forms over {NotBefore, NotAfter, now} through helpers, parameters and loop phis: every point in time the rotation code compares the clock with or sleeps towards is (1-a)*NotBefore + a*NotAfter of ONE certificate with a <= 1/2 and no positive offset; every clock wait in the rotation code is provably <= 1 minute (constant, min(), guarded clamp, helper result, parameter at all call sites); on every path from the non-nil side of a fetch-error test (followed out of phase helpers through their returns, carrying returned constants/flags/enums into the callers' branches) the first clock wait is exactly 10 s and no fetch comes first; no time.Now/After/Sleep/NewTimer/Tick/Since/Until in the rotation code (injected clock). " +
+		"(X7) every return of GetX509SVID (followed through wrappers, func adapters and helpers forwarding the pair) with a nil error carries an SVID known non-nil there (tested against nil, implied by a flag from the same helper call or by an error variable set exactly on the nil side, or the address of a copy behind a flag-field test); (nil, nil), the SVID returned exactly when nil, or the served field returned untested with no related dominating condition is a VIOLATION, other shapes UNDECIDED. " +
+		"NOT decided: the renewal law over all validity windows and failure sequences (only its constants and wiring), that the certificate used for the renewal point is the leaf of the served SVID, the order of store and close inside the critical section, that GetX509SVID waits for readiness at all before reading (only that something does), the private key's cryptographic quality."
+	r.Assumptions = append(r.Assumptions, "type-based lock/channel identity (named type, field)", "crypto GenerateKey functions return a fresh key on every call (crypto/rand)",
+		"unexported functions of crypto/spiffe are only called from the call sites visible in the package", "a helper that is handed a function literal and calls its parameter does so synchronously, before returning",
+		"the served-SVID field is nil (flag false) until the first store; variables captured by a callback are not modified concurrently while it runs")
 	r.Rule("C19.X1-ready-wait", "no wait on the readiness channel under a lock that every close of it needs", 2)
 	r.Rule("C19.X2-ready-once", "Run closes the readiness channel exactly once on every path that started the fetch; Ready selects on it and ctx", 3)
 	r.Rule("C19.X3-svid", "SVID field guarded; stores only of successful fetch results; GetX509SVID serves it", 4)
